@@ -69,13 +69,13 @@ ZzBad(name) == LET segs == SplitAt(name, DOT) IN
                \/ ~ValidAddress(HexVal(segs[1][1]) * 16 + HexVal(segs[1][2]), TRUE)
 FnVerdict(r) ==
   LET p == ParseName(r.fn) IN
-  IF p.conv \in {"yes", "part"} THEN
+  IF p.conv = "yes" THEN
     IF r.ok # 1 THEN <<"F-refused", 0>>
     ELSE IF r.dest # p.zz \/ r.zz # p.zztext THEN <<"F-address", r.dest>>
     ELSE IF r.sw # p.sw \/ r.hw # p.hw THEN <<"F-version", 0>>
     ELSE IF r.ident # p.ident THEN <<"F-ident", 0>>
-    ELSE IF p.conv = "yes" /\ (r.circuit # p.circuit \/ r.suffix # p.suffix) THEN <<"F-circuit", 0>>
-    ELSE IF p.conv = "part" THEN <<"open", 4>> ELSE OKV
+    ELSE IF r.circuit # p.circuit \/ r.suffix # p.suffix THEN <<"F-circuit", 0>>
+    ELSE OKV
   ELSE IF ZzBad(r.fn) THEN (IF r.ok = 1 THEN <<"F-accepted", 0>> ELSE OKV)
   ELSE <<"open", 5>>
 
@@ -96,14 +96,15 @@ Judge == ssj_pos = 0 \/ LET v == Verdict(Recs[ssj_pos]) IN
                         \/ v[1] = "LEMMA" /\ ~PrintT(<<"VF", "LEMMA", ssj_pos>>)
                         \/ ~PrintT(<<"VF", "BAD", ssj_pos, v>>)
 
-(* domain completeness: the records are exactly the enumerated domain, each case once *)
+(* domain completeness: the records are the enumerated case list, case by case in the order it was emitted *)
 IdxOf(ty) == {k \in 1..N : Recs[k].t = ty}
-RecKey(r) == <<r.addr, r.has, r.sl, SetOf(r.ents)>>
-ASSUME Family = "all" => {RecKey(Recs[k]) : k \in IdxOf("sel")} = {SelKey(w) : w \in SelWorlds(Thorough)}
-ASSUME Family = "all" => Cardinality(IdxOf("sel")) = Cardinality(SelWorlds(Thorough))
-ASSUME Family = "all" => {Recs[k].fn : k \in IdxOf("fn")} = FnNames /\ Cardinality(IdxOf("fn")) = Cardinality(FnNames)
-ASSUME Family = "all" => {<<Recs[k].arg, Recs[k].oms, Recs[k].pre>> : k \in IdxOf("pm")} = {<<c.arg, c.oms, c.pre>> : c \in PmCases}
-ASSUME Family = "all" => Cardinality(IdxOf("pm")) = Cardinality(PmCases)
+Dom == IF Family = "all" THEN SelSeq(Thorough) \o SetToSeq({[t |-> "fn", fn |-> n] : n \in FnNames}) \o SetToSeq(PmCases) ELSE <<>>
+SameCase(r, c) == /\ r.t = c.t
+                  /\ CASE c.t = "sel" -> r.addr = c.addr /\ r.has = c.has /\ r.sl = c.sl /\ r.ents = c.ents
+                        [] c.t = "fn" -> r.fn = c.fn
+                        [] OTHER -> r.arg = c.arg /\ r.oms = c.oms /\ r.pre = c.pre
+ASSUME Family = "all" => Len(Dom) = N
+ASSUME Family = "all" => \A k \in 1..N : SameCase(Recs[k], Dom[k])
 ASSUME \A k \in IdxOf("sel") : Len(Recs[k].r) = 2
 ASSUME PrintT(<<"VF", "DOMAIN", Family, N, Cardinality(IdxOf("sel")), Cardinality(IdxOf("fn")), Cardinality(IdxOf("pm"))>>)
 =============================================================================
